@@ -352,4 +352,198 @@ Section Compose.
     - cbn [andb]. split; [|discriminate]. intros H. exfalso.
       apply app_eq_nil in H as [H _]. assert (X : [] = [] /\ false = true) by (apply F1; exact H). destruct X; discriminate.
   Qed.
+
+  (** *** what an error-free container chain has recorded *)
+  Notation container_step := (container_step reparse reparse_preds).
+
+  (** a projection of the state that an error-free step sets exactly at the items named [n] *)
+  Lemma tracked_fold {S : Type} (stepf : S -> nested -> arm S) (pr : S -> bool) (n : string) :
+    (forall s mi, is_meta mi = true -> snd (stepf s mi) = None -> pr (fst (stepf s mi)) = (pr s || mpath_is mi n)%bool) ->
+    forall items, Forall (fun mi => is_meta mi = true) items -> forall s errs,
+      snd (fold_left (items_step stepf) items (s, errs)) = [] ->
+      pr (fst (fold_left (items_step stepf) items (s, errs))) = (pr s || existsb (fun mi => mpath_is mi n) items)%bool.
+  Proof.
+    intros H items M. induction M as [|mi r Hm _ IH]; intros s errs E; cbn [fold_left existsb]; [now rewrite orb_false_r|].
+    cbn [fold_left] in E.
+    assert (St : items_step stepf (s, errs) mi = (fst (stepf s mi), errs ++ errs_of (snd (stepf s mi)))).
+    { destruct mi; cbn [is_meta] in Hm; try discriminate; cbn [items_step]; destruct (stepf s _); reflexivity. }
+    rewrite St in *. rewrite (IH _ _ E).
+    destruct (snd (stepf s mi)) as [e|] eqn:O.
+    - exfalso. destruct (items_fold_prefix stepf r (fst (stepf s mi)) (errs ++ errs_of (Some e))) as [m Hm2].
+      rewrite Hm2 in E. apply app_eq_nil in E as [E _]. apply app_eq_nil in E as [_ E]. discriminate.
+    - rewrite (H s mi Hm O). now rewrite orb_assoc.
+  Qed.
+
+  Lemma has_option_items attrs items n : all_items attrs = Some items ->
+    has_option n attrs = existsb (fun mi => mpath_is mi n) items.
+  Proof.
+    intros A. unfold has_option, Spec.C10.count. rewrite A.
+    induction items as [|x r IH] in |- *; [reflexivity|]. cbn [filter existsb]. destruct (mpath_is x n); cbn [List.length]; [reflexivity|].
+    clear IH. induction r as [|y r IHr]; [reflexivity|]. cbn [filter existsb]. destruct (mpath_is y n); [reflexivity|exact IHr].
+  Qed.
+
+  Ltac crush_step :=
+    repeat match goal with
+           | |- context [if mpath_is ?mi ?n then _ else _] => destruct (mpath_is mi n) eqn:?
+           | |- context [if (mpath_is ?mi ?a || mpath_is ?mi ?b)%bool then _ else _] => destruct (mpath_is mi a) eqn:?; destruct (mpath_is mi b) eqn:?; cbn [orb]
+           | |- context [match ?x with _ => _ end] =>
+               lazymatch x with
+               | context [mpath_is] => fail
+               | _ => destruct x eqn:?
+               end
+           end;
+    cbn [fst snd c_forward_attrs c_from_word is_some orb] in *; try discriminate; try reflexivity; try (now rewrite orb_false_r).
+
+  Lemma container_step_fw t c mi : is_meta mi = true -> snd (container_step t c mi) = None ->
+    is_some (c_forward_attrs (fst (container_step t c mi))) = (is_some (c_forward_attrs c) || mpath_is mi "forward_attrs")%bool.
+  Proof.
+    intros M. destruct (mpath_is mi "forward_attrs") eqn:F.
+    - rewrite orb_true_r.
+      destruct t; unfold Resolve.container_step, di_step, v_step, outer_step, from_meta_step, core_step;
+        repeat match goal with
+               | |- context [mpath_is mi ?n] =>
+                   let N := fresh in assert (N : "forward_attrs" <> n) by discriminate;
+                   rewrite (names_excl mi "forward_attrs" n N F); clear N
+               end; cbn [orb]; rewrite ?F;
+        destruct mi; try (cbn in M; discriminate); try (cbn in F; discriminate); crush_step.
+    - rewrite orb_false_r.
+      destruct t; unfold Resolve.container_step, di_step, v_step, outer_step, from_meta_step, core_step; rewrite ?F; crush_step.
+  Qed.
+
+  Lemma container_step_ww t c mi : is_meta mi = true -> snd (container_step t c mi) = None ->
+    is_some (c_from_word (fst (container_step t c mi))) = (is_some (c_from_word c) || mpath_is mi "from_word")%bool.
+  Proof.
+    intros M. destruct (mpath_is mi "from_word") eqn:F.
+    - rewrite orb_true_r.
+      destruct t; unfold Resolve.container_step, di_step, v_step, outer_step, from_meta_step, core_step;
+        repeat match goal with
+               | |- context [mpath_is mi ?n] =>
+                   let N := fresh in assert (N : "from_word" <> n) by discriminate;
+                   rewrite (names_excl mi "from_word" n N F); clear N
+               end; cbn [orb]; rewrite ?F;
+        destruct mi; try (cbn in M; discriminate); try (cbn in F; discriminate); crush_step.
+    - rewrite orb_false_r.
+      destruct t; unfold Resolve.container_step, di_step, v_step, outer_step, from_meta_step, core_step; rewrite ?F; crush_step.
+  Qed.
+
+  (** what the accepted container chain leaves in the state the body rules look at *)
+  Theorem accepted_container_records t attrs :
+    Forall attr_shaped attrs ->
+    snd (parse_attributes (container_step t) copts0 attrs) = [] ->
+    let c := fst (parse_attributes (container_step t) copts0 attrs) in
+    is_some (c_forward_attrs c) = has_option "forward_attrs" attrs
+    /\ is_some (c_from_word c) = has_option "from_word" attrs.
+  Proof.
+    intros SH E. destruct (accepted_attrs_are_lists (container_step t) attrs SH copts0 [] E) as [A L].
+    cbv zeta. rewrite !(has_option_items attrs _ _ A). unfold parse_attributes in *.
+    rewrite (ContainerOrderProofs.parse_attributes_flat_c reparse reparse_preds t attrs L) in *.
+    pose proof (flat_items_meta attrs L) as M. split.
+    - rewrite (tracked_fold (container_step t) (fun c => is_some (c_forward_attrs c)) "forward_attrs"
+                 (fun s mi Hm Ho => container_step_fw t s mi Hm Ho) (flat_items attrs) M copts0 [] E). reflexivity.
+    - rewrite (tracked_fold (container_step t) (fun c => is_some (c_from_word c)) "from_word"
+                 (fun s mi Hm Ho => container_step_ww t s mi Hm Ho) (flat_items attrs) M copts0 [] E). reflexivity.
+  Qed.
+
+
+  (** *** `attributes(..)`: the last one wins; FromAttributes needs it non-empty *)
+  Lemma tracked_last {S : Type} (stepf : S -> nested -> arm S) (pr : S -> bool) (n : string) (val : nested -> bool) :
+    (forall s mi, is_meta mi = true -> snd (stepf s mi) = None ->
+                  pr (fst (stepf s mi)) = if mpath_is mi n then val mi else pr s) ->
+    forall items, Forall (fun mi => is_meta mi = true) items -> forall s errs,
+      snd (fold_left (items_step stepf) items (s, errs)) = [] ->
+      pr (fst (fold_left (items_step stepf) items (s, errs)))
+      = fold_left (fun d mi => if mpath_is mi n then val mi else d) items (pr s).
+  Proof.
+    intros H items M. induction M as [|mi r Hm _ IH]; intros s errs E; cbn [fold_left]; [reflexivity|].
+    cbn [fold_left] in E.
+    assert (St : items_step stepf (s, errs) mi = (fst (stepf s mi), errs ++ errs_of (snd (stepf s mi)))).
+    { destruct mi; cbn [is_meta] in Hm; try discriminate; cbn [items_step]; destruct (stepf s _); reflexivity. }
+    rewrite St in *. rewrite (IH _ _ E).
+    destruct (snd (stepf s mi)) as [e|] eqn:O.
+    - exfalso. destruct (items_fold_prefix stepf r (fst (stepf s mi)) (errs ++ errs_of (Some e))) as [m Hm2].
+      rewrite Hm2 in E. apply app_eq_nil in E as [E _]. apply app_eq_nil in E as [_ E]. discriminate.
+    - now rewrite (H s mi Hm O).
+  Qed.
+
+  Definition nonempty_list (mi : nested) : bool := match mi with NList _ _ _ (_ :: _) => true | _ => false end.
+
+  Lemma last_wins_rev n items : forall d,
+    fold_left (fun d mi => if mpath_is mi n then nonempty_list mi else d) items d
+    = match rev (filter (fun mi => mpath_is mi n) items) with
+      | x :: _ => nonempty_list x
+      | [] => d
+      end.
+  Proof.
+    induction items as [|mi r IH]; intros d; [reflexivity|]. cbn [fold_left filter]. rewrite IH.
+    destruct (mpath_is mi n); [|reflexivity]. cbn [rev].
+    destruct (rev (filter (fun mi0 => mpath_is mi0 n) r)) as [|x xs]; reflexivity.
+  Qed.
+
+  Lemma pathlist_go_len items : forall vs, pathlist_go items = Ok vs -> List.length vs = List.length items.
+  Proof.
+    induction items as [|it r IH]; intros vs; cbn [pathlist_go]; [intros [= <-]; reflexivity|].
+    destruct it; try discriminate. destruct (pathlist_go r) as [ws|e|m]; try discriminate. intros [= <-]. cbn. now rewrite (IH ws eq_refl).
+  Qed.
+
+  Lemma conv_pathlist_ok mi v : conv TPathList mi = Ok v ->
+    exists i p ti items vs, mi = NList i p ti items /\ v = VList vs /\ List.length vs = List.length items.
+  Proof.
+    unfold Resolve.conv, FM. cbn [fm_of]. unfold from_meta. cbn [pathlist_fm o_meta].
+    destruct mi as [i l|i p|i p ti items|i p ti es msg|i p e]; cbn [default_from_meta]; try discriminate.
+    - intros H. apply map_err_Ok in H. unfold from_list in H. cbn [o_list pathlist_fm] in H. cbv beta in H.
+      destruct (pathlist_go items) as [vs|x|m] eqn:G; cbn [map_ok] in H; try discriminate. injection H as <-.
+      exists i, p, ti, items, vs. repeat split. now apply pathlist_go_len.
+    - intros H. apply map_err_Ok in H. unfold from_expr in H. cbn [o_expr] in H.
+      apply from_expr_ok_source in H; [|reflexivity].
+      destruct H as [H|[[s H]|[[b H]|[c H]]]]; unfold from_word, from_string, from_bool, from_char in H; cbn in H; discriminate H.
+  Qed.
+
+  Definition has_names (c : copts) : bool := match c_attr_names c with [] => false | _ => true end.
+
+  Lemma container_step_names t c mi : is_meta mi = true -> snd (container_step t c mi) = None ->
+    has_names (fst (container_step t c mi)) = if mpath_is mi "attributes" then nonempty_list mi else has_names c.
+  Proof.
+    intros M. destruct (mpath_is mi "attributes") eqn:F.
+    - destruct t; unfold Resolve.container_step, di_step, v_step, outer_step, from_meta_step, core_step;
+        repeat match goal with
+               | |- context [mpath_is mi ?n] =>
+                   let N := fresh in assert (N : "attributes" <> n) by discriminate;
+                   rewrite (names_excl mi "attributes" n N F); clear N
+               end; cbn [orb]; rewrite ?F; try (cbn [snd]; discriminate);
+        (destruct (conv TPathList mi) as [v|e|m] eqn:C; cbn [fst snd]; try discriminate; intros _;
+         destruct (conv_pathlist_ok mi v C) as [i [p [ti [items [vs [-> [-> L]]]]]]];
+         unfold has_names; cbn [c_attr_names strs_of nonempty_list];
+         destruct vs, items; cbn in L; try discriminate; reflexivity).
+    - destruct t; unfold Resolve.container_step, di_step, v_step, outer_step, from_meta_step, core_step, has_names; rewrite ?F;
+        repeat match goal with
+               | |- context [if mpath_is ?mi ?n then _ else _] => destruct (mpath_is mi n) eqn:?
+               | |- context [if (mpath_is ?mi ?a || mpath_is ?mi ?b)%bool then _ else _] => destruct (mpath_is mi a) eqn:?; destruct (mpath_is mi b) eqn:?; cbn [orb]
+               | |- context [match ?x with _ => _ end] =>
+                   lazymatch x with
+                   | context [mpath_is] => fail
+                   | context [c_attr_names] => fail
+                   | _ => destruct x eqn:?
+                   end
+               end;
+        cbn [fst snd c_attr_names] in *; try discriminate; try reflexivity.
+  Qed.
+
+  (** the last `attributes(..)` of an accepted container is what the state holds *)
+  Theorem accepted_container_names t attrs items :
+    Forall attr_shaped attrs -> all_items attrs = Some items ->
+    snd (parse_attributes (container_step t) copts0 attrs) = [] ->
+    has_names (fst (parse_attributes (container_step t) copts0 attrs))
+    = match rev (filter (fun mi => mpath_is mi "attributes") items) with
+      | NList _ _ _ (_ :: _) :: _ => true
+      | _ => false
+      end.
+  Proof.
+    intros SH A E. destruct (all_items_lists _ _ A) as [L ->].
+    unfold parse_attributes in *. rewrite (ContainerOrderProofs.parse_attributes_flat_c reparse reparse_preds t attrs L) in *.
+    rewrite (tracked_last (container_step t) has_names "attributes" nonempty_list
+               (fun s mi Hm Ho => container_step_names t s mi Hm Ho) (flat_items attrs) (flat_items_meta attrs L) copts0 [] E).
+    rewrite last_wins_rev. change (has_names copts0) with false.
+    destruct (rev (filter (fun mi => mpath_is mi "attributes") (flat_items attrs))) as [|x xs]; [reflexivity|].
+    destruct x as [| |i p ti [|y ys]| |]; reflexivity.
+  Qed.
 End Compose.
